@@ -15,42 +15,30 @@ VERIF = os.path.dirname(os.path.dirname(os.path.abspath(__file__)))
 REPO = os.environ.get('VERIF_REPO', '/repo')
 
 # harness -> (complete?, bound text, functions of /repo exercised, timeout seconds)
+# harness -> (complete?, bound text, functions of /repo exercised, timeout seconds, memory limit GB)
 HARNESSES = {
     # C18
-    'ident_ascii_6': (False, 'all ASCII strings of length <= 6', ['src/utils.rs is_rust_identifier'], 300),
-    'ident_ascii_8': (False, 'all ASCII strings of length <= 8', ['src/utils.rs is_rust_identifier'], 900),
-    'ident_ascii_12': (False, 'all ASCII strings of length <= 12', ['src/utils.rs is_rust_identifier'], 3600),
-    'ident_unicode_char': (False, '<=2 ASCII bytes + one arbitrary char + <=1 ASCII byte', ['src/utils.rs is_rust_identifier'], 900),
-    'ident_contract_3': (False, 'proof_for_contract(is_rust_identifier): all ASCII strings of length <= 3', ['src/utils.rs is_rust_identifier'], 1800),
-    'from_segments_2x4': (False, '<= 2 segments x <= 4 ASCII bytes, is_rust_identifier replaced by its contract (stub_verified)',
-                          ['src/ty/path.rs Path::from_segments', 'Path::ident', 'Path::namespace', 'Path::is_empty'], 900),
+    'ident_ascii_8': (False, 'all ASCII strings of length <= 8', ['src/utils.rs is_rust_identifier'], 600, 14),
+    'ident_ascii_12': (False, 'all ASCII strings of length <= 12', ['src/utils.rs is_rust_identifier'], 1800, 14),
+    'ident_unicode_char': (False, '<=2 ASCII bytes + one arbitrary char + <=1 ASCII byte', ['src/utils.rs is_rust_identifier'], 900, 14),
+    'ident_contract_3': (False, 'proof_for_contract(is_rust_identifier): all ASCII strings of length <= 3', ['src/utils.rs is_rust_identifier'], 2400, 26),
     'from_segments_3x4': (False, '<= 3 segments x <= 4 ASCII bytes, is_rust_identifier replaced by its contract (stub_verified)',
-                          ['src/ty/path.rs Path::from_segments', 'Path::ident', 'Path::namespace', 'Path::is_empty'], 3600),
-    'from_segments_mono_2x3': (False, '<= 2 segments x <= 3 ASCII bytes, monolithic', ['src/ty/path.rs Path::from_segments', 'Path::ident', 'Path::namespace', 'src/utils.rs is_rust_identifier'], 1200),
-    'path_new_small': (False, 'module path <= 4 ASCII bytes, ident <= 2', ['src/ty/path.rs Path::new', 'Path::new_with_replace'], 1800),
-    'path_new_with_replace_small': (False, 'ident/key/value <= 2 ASCII bytes, one-entry table', ['src/ty/path.rs Path::new_with_replace'], 1800),
+                          ['src/ty/path.rs Path::from_segments', 'Path::ident', 'Path::namespace', 'Path::is_empty'], 3600, 20),
+    'path_new_with_replace_small': (False, 'ident/key/value <= 2 ASCII bytes, one-entry table, module "m"', ['src/ty/path.rs Path::new_with_replace'], 3600, 14),
     # C06
-    'enc_symbol_compact': (True, 'none (all u32)', ['derived Encode of UntrackedSymbol (#[codec(compact)] id)'], 600),
-    'enc_def_sequence': (True, 'none (all u32)', ['derived Encode of TypeDef / TypeDefSequence'], 900),
-    'enc_def_array': (True, 'none (all u32 x u32)', ['derived Encode of TypeDef / TypeDefArray'], 900),
-    'enc_def_primitive': (True, 'none (all 15 primitives)', ['derived Encode of TypeDef / TypeDefPrimitive'], 900),
-    'enc_def_compact': (True, 'none (all u32)', ['derived Encode of TypeDef / TypeDefCompact'], 900),
-    'enc_def_bitsequence': (True, 'none (all u32 x u32)', ['derived Encode of TypeDef / TypeDefBitSequence'], 900),
-    'enc_field_a': (False, 'fixed shape (name, no type name, no docs), id symbolic', ['derived Encode of Field'], 1200),
-    'enc_field_b': (False, 'fixed shape (no name, type name, 1 doc), id symbolic', ['derived Encode of Field'], 1200),
-    'enc_variant': (False, 'fixed shape (1 field, 1 doc), index and id symbolic', ['derived Encode of Variant'], 1200),
-    'enc_def_composite': (False, 'fixed shape (1 field), id symbolic', ['derived Encode of TypeDef / TypeDefComposite'], 1200),
-    'enc_def_variant': (False, 'fixed shape (1 field-less variant), index symbolic', ['derived Encode of TypeDef / TypeDefVariant'], 1200),
-    'enc_def_tuple': (False, 'fixed shape (2 members), ids symbolic', ['derived Encode of TypeDef / TypeDefTuple'], 1200),
-    'enc_type_and_registry': (False, 'fixed shape (path 2, 1 parameter, array def, 1 doc, 1 entry), all ids / len symbolic',
-                              ['derived Encode of Type / TypeParameter / Path / PortableType / PortableRegistry'], 1800),
-    'enc_type_param_none': (False, 'fixed shape (1 parameter without type), id symbolic', ['derived Encode of Type / TypeParameter'], 1200),
+    'enc_symbol_compact': (True, 'none (all u32)', ['derived Encode of UntrackedSymbol (#[codec(compact)] id)'], 600, 14),
+    'enc_def_sequence': (True, 'none (all u32)', ['derived Encode of TypeDef / TypeDefSequence'], 900, 14),
+    'enc_def_array': (True, 'none (all u32 x u32)', ['derived Encode of TypeDef / TypeDefArray'], 900, 14),
+    'enc_def_primitive': (True, 'none (all 15 primitives)', ['derived Encode of TypeDef / TypeDefPrimitive'], 900, 14),
+    'enc_def_compact': (True, 'none (all u32)', ['derived Encode of TypeDef / TypeDefCompact'], 900, 14),
+    'enc_def_bitsequence': (True, 'none (all u32 x u32)', ['derived Encode of TypeDef / TypeDefBitSequence'], 2400, 14),
+    'enc_def_tuple': (False, 'fixed shape (2 members), ids symbolic', ['derived Encode of TypeDef / TypeDefTuple'], 1200, 14),
+    'enc_field_a': (False, 'fixed shape (name, no type name, no docs), id symbolic', ['derived Encode of Field'], 1200, 14),
     # stand-ins for functions left external in the Verus units
-    'builder_new_is_empty': (True, 'none (no inputs)', ['src/portable.rs PortableRegistryBuilder::new'], 600),
-    'builder_finish_lists_values': (False, '<= 3 registrations over 3 distinct values', ['src/portable.rs PortableRegistryBuilder::finish'], 1800),
-    'map_into_portable_in_order': (False, '<= 3 elements', ['src/registry.rs Registry::map_into_portable'], 1800),
-    'tuple_new_erases_phantom': (False, '<= 3 members from a pool of 3 types', ['src/ty/mod.rs TypeDefTuple::new'], 1800),
-    'metatype_new_identity': (True, 'none (fixed pool of types, no symbolic input)', ['src/meta_type.rs MetaType::new / type_id / is_phantom'], 600),
+    'builder_new_is_empty': (True, 'none (no inputs)', ['src/portable.rs PortableRegistryBuilder::new'], 600, 14),
+    'builder_finish_lists_values': (False, '<= 3 registrations over 3 distinct values', ['src/portable.rs PortableRegistryBuilder::finish'], 3600, 14),
+    'map_into_portable_in_order': (False, '<= 3 elements', ['src/registry.rs Registry::map_into_portable'], 1200, 14),
+    'metatype_new_identity': (True, 'none (fixed pool of types, no symbolic input)', ['src/meta_type.rs MetaType::new / type_id / is_phantom'], 600, 14),
 }
 
 CONTRACT_ATTRS = [
@@ -89,22 +77,19 @@ def prepare(scratch):
             raise KaniSetupError('injection changed an existing line: ' + l)
 
 
-MEM_LIMIT_GB = int(os.environ.get('VERIF_KANI_MEM_GB', '14'))
-
-
-def _limit():
+def _limit(gb=14):
     import resource
-    lim = MEM_LIMIT_GB * 1024 ** 3
+    lim = gb * 1024 ** 3
     resource.setrlimit(resource.RLIMIT_AS, (lim, lim))
     os.setsid()
 
 
-def run_one(scratch, harness, timeout):
+def run_one(scratch, harness, timeout, mem_gb=14):
     cmd = ['cargo', 'kani', '-Z', 'function-contracts', '-Z', 'stubbing', '--harness', harness]
     env = dict(os.environ, CARGO_NET_OFFLINE='true')
     t0 = time.time()
     p = subprocess.Popen(cmd, cwd=scratch, env=env, stdout=subprocess.PIPE, stderr=subprocess.STDOUT, text=True,
-                         preexec_fn=_limit)
+                         preexec_fn=lambda: _limit(mem_gb))
     try:
         out, _ = p.communicate(timeout=timeout)
         timed_out = False
@@ -159,7 +144,8 @@ def parse(out):
     return res
 
 
-def run_kani_leg(pid, harnesses, tier, outdir, jobs=8):
+def run_kani_leg(pid, harnesses, tier, outdir, jobs=None):
+    jobs = jobs or (4 if tier == 'quick' else 2)
     from concurrent.futures import ThreadPoolExecutor
     scratch = tempfile.mkdtemp(prefix='verif-kani-')
     results = []
@@ -173,8 +159,8 @@ def run_kani_leg(pid, harnesses, tier, outdir, jobs=8):
         first = harnesses[0]
 
         def one(h):
-            complete, bound, funcs, tmo = HARNESSES[h]
-            out, timed_out, wall, cmd = run_one(scratch, h, tmo)
+            complete, bound, funcs, tmo, mem = HARNESSES[h]
+            out, timed_out, wall, cmd = run_one(scratch, h, tmo, mem)
             with open(os.path.join(outdir, 'kani-%s.log' % h), 'w') as f:
                 f.write(out)
             r = parse(out)
